@@ -21,22 +21,27 @@ PROP = "C05"
 LEAN_FILES = ["QibProofs/Properties/C05.lean", "QibProofs/Properties/C05Net.lean"]
 GEN = ()
 DRIVER = "drv_circuit"
-LEVEL_TEXT = ("MATRIX PART ONLY. Lean 4 theorems: the loop of Circuit.as_matrix returns g_k*...*g_1 (first gate applied first), "
-              "composition laws for append/prepend of gates and circuits over any monoid (array matrices and Mathlib matrices alike), "
-              "as_matrix = product of the embedded gate matrices with the rejections of the code, value semantics of the builder model "
-              "(later mutations of the caller's objects never reach the circuit), unit norm of every column for unitary gates. "
-              "Tied to the code by builder histories with interleaved mutations, compared after every call. "
-              "The tensor-network view and the two simulators are NOT modelled yet; they are only cross-checked against the matrix "
-              "in the oracle (gates only, no control instructions).")
+LEVEL_TEXT = ("Lean 4 theorems about the executable models of all four views. Matrix (C05.lean): the loop of Circuit.as_matrix returns "
+              "g_k*...*g_1 (first gate applied first), composition laws for append/prepend of gates and circuits, as_matrix = product of the "
+              "embedded gate matrices with the rejections of the code, value semantics of the builder (later mutations of the caller's objects "
+              "never reach the circuit), unit norm of every column, statevector simulator (svRun) = column |0..0>. Tensor network (C05Net.lean): "
+              "`circuitNet` mirrors Circuit.as_tensornet line by line (identity-wire network, per-gate gate network, merge on the input axes, "
+              "argsort re-transposition, assertions) and `tnRun` mirrors TensorNetworkSimulator.run; for every circuit the network is consistent "
+              "with 2n open axes (the in-loop assertion can never fire), its denotation is the circuit matrix (C05_circuitNet_full, by induction "
+              "over the gate list from C06/C08/C04), single-shot contraction returns it, the tensor-network simulator returns column |0..0> and "
+              "agrees with the statevector simulator. Tied by builder histories with interleaved in-place mutations compared after every call, "
+              "and by exact structural + numeric comparison of networks and simulator outputs on random circuits.")
 ASSUMPTIONS = ["np.einsum accepts at most 52 distinct index labels: single-shot contraction of a circuit network with more bonds raises IndexError "
                "inside NumPy; such circuits are outside the view comparison (resource limit, counted in the evidence distribution)",
-               "tensor-network view (as_tensornet / contract_einsum) and StatevectorSimulator / TensorNetworkSimulator are not covered by "
-               "the Lean model or theorems of this check yet (oracle-level consistency only)",
                "matrix products are rounded by scipy/numpy: comparison with tolerance 1e-9*(1+max|entry|); the model multiplies the exact "
                "rational values of the gates' float matrices and returns entries rounded to multiples of 2^-80 (exact integer arithmetic)",
                "gate matrices (as_matrix of each gate) are inputs of this check (their correctness is C01/C02); particles are identifiers: "
                "mutating a Particle object itself is outside the statement",
-               "the embedding of each gate is C04's (as_circuit_matrix); here the model reuses its algorithmic mirror"]
+               "the iteration orders of the Python sets inside merge and the numbering of data references are inputs of the network model, read "
+               "off the real run; the theorems hold for all of them; dense network values are compared up to the tier's term limit",
+               "known finding: Rxx/Ryy/Rzz/iSWAP offer a 2-axis network, Circuit.as_tensornet refuses circuits containing them (mirrored by the "
+               "model, theorem C05_known_twoQubitWrap_refused); preparation gates are the documented rank-one exception of C06 and are excluded "
+               "from the network = matrix statement (their circuits are covered by the matrix and statevector views)"]
 RULE = ("seeded random builder histories (1..15 ops: append/prepend gate, append/prepend circuit, mutations of the caller's objects of every "
         "gate class used, control instructions interleaved), 1..3 fields, registers up to the tier bound, idle wires, overlapping wire sets; "
         "a case is non-trivial if at least one step produced a matrix; distinct = distinct histories")
